@@ -34,6 +34,10 @@ def make_flow(root, shape, tail, pulls, fault=None):
                 def rows(ri=ri, res=res):
                     for j, r in enumerate(res):
                         if fault and fault[0] == where and fault[1] == ri and fault[2] == j:
+                            if len(fault) > 3 and fault[3] == 'cast':
+                                import tableschema
+                                raise tableschema.exceptions.CastError('%s cast error at resource %d row %d' % (where, ri, j),
+                                                                       errors=[tableschema.exceptions.CastError('inner')])
                             raise Injected('%s fault at resource %d row %d' % (where, ri, j))
                         yield r
                     if fault and fault[0] == where and fault[1] == ri and fault[2] == 'end':
@@ -327,6 +331,26 @@ def check_scenario(sc):
                 V(v[0], v[1], {'kind': 'fsfault', 'k': k, 'op': kind})
             shutil.rmtree(r_root, ignore_errors=True)
         # (3) exception from an upstream / downstream step at every row and at exhaustion
+        # a validation error (tableschema CastError) raised by a step while rows are flowing is a failure like any other
+        for ri, n in enumerate(shape):
+            for j in range(n if sc.get('deep') else min(n, 1)):
+                r_root = os.path.join(d, 'c')
+                shutil.rmtree(r_root, ignore_errors=True)
+                os.makedirs(r_root)
+                frec = fsrec.Recorder(r_root)
+                with frec.active():
+                    fr = run_flow(r_root, shape, tail, fault=('up', ri, j, 'cast'))
+                after = frec.points[-1][1]
+                if fr[0] == 'ok':
+                    V('fault-swallowed', 'cast error in the upstream step at resource %d row %d but the run returned normally' % (ri, j),
+                      {'kind': 'castfault', 'ri': ri, 'j': j})
+                v, committed = recover(after, shape, tail, ref, 'cast error in the upstream step at resource %d row %d' % (ri, j), d)
+                if not v and fr[0] == 'exc' and committed:
+                    v = ('failed-run-committed', 'cast error in the upstream step at resource %d row %d: the failed run left a committed '
+                         'checkpoint behind' % (ri, j))
+                note('castfault:%s' % ('committed' if committed else 'uncommitted'), h(['castfault', shape, tail, ri, j]))
+                if v:
+                    V(v[0], v[1], {'kind': 'castfault', 'ri': ri, 'j': j})
         for where in ('up', 'down'):
             for ri, n in list(enumerate(shape)) + [('iterend', 0)]:
                 for j in list(range(n)) + ['end']:
@@ -356,7 +380,7 @@ def check_scenario(sc):
                         note('retry-while-alive')
                         if v3:
                             V(v3[0], v3[1], {'kind': 'retry-while-alive', 'where': where, 'ri': ri, 'j': j})
-                        if j == 0 and fr[0] == 'exc':
+                        if j == 0 and fr[0] == 'exc' and (sc.get('deep') or len(shape) <= 2):
                             v4, cnt = finalised_during_retry(d, shape, tail, ref, where, ri, j)
                             for _ in range(cnt):
                                 note('gc-during-retry', h(['gc-during-retry', shape, tail, where, ri, j, _]))
@@ -385,7 +409,7 @@ def scenarios(tier):
             shapes.append(list(sh))
     if tier == 'thorough':
         shapes += [[3, 3], [5], [0, 0, 0, 1], [2, 2, 2, 2]]
-    return [{'shape': s, 'tail': t} for s in shapes for t in (False, True)]
+    return [{'shape': s, 'tail': t, 'deep': tier == 'thorough'} for s in shapes for t in (False, True)]
 
 
 def run(run):
@@ -406,5 +430,5 @@ def run(run):
 
 
 def replay(w):
-    out = check_scenario({'shape': w['shape'], 'tail': w['tail']})
+    out = check_scenario({'shape': w['shape'], 'tail': w['tail'], 'deep': True})
     return out['viol']
